@@ -29,6 +29,9 @@ import (
 
 const Root = "/verif"
 
+// OutRoot is where evidence, replays and run directories go (overridable for scratch runs against mutated copies).
+var OutRoot = envOr("VERIF_OUT", Root)
+
 // Spec describes one property check.
 type Spec struct {
 	ID          string
@@ -422,7 +425,7 @@ type childRun struct {
 func parent(spec *Spec, tier string, seed int64, onlyLane, raceBin string) int {
 	start := time.Now()
 	self, _ := os.Executable()
-	work := filepath.Join(Root, "build", "run", fmt.Sprintf("%s-%d", spec.ID, os.Getpid()))
+	work := filepath.Join(OutRoot, "build", "run", fmt.Sprintf("%s-%d", spec.ID, os.Getpid()))
 	_ = os.MkdirAll(work, 0o755)
 	defer os.RemoveAll(work)
 
@@ -624,10 +627,10 @@ func parent(spec *Spec, tier string, seed int64, onlyLane, raceBin string) int {
 		"coverage": cov, "assumptions": spec.Assumptions,
 		"wall_s": time.Since(start).Seconds(), "violations": len(unlisted),
 	}
-	_ = os.MkdirAll(filepath.Join(Root, "evidence"), 0o755)
+	_ = os.MkdirAll(filepath.Join(OutRoot, "evidence"), 0o755)
 	if onlyLane == "" {
 		b, _ := json.MarshalIndent(ev, "", " ")
-		_ = os.WriteFile(filepath.Join(Root, "evidence", spec.ID+".json"), append(b, '\n'), 0o644)
+		_ = os.WriteFile(filepath.Join(OutRoot, "evidence", spec.ID+".json"), append(b, '\n'), 0o644)
 	}
 
 	keys := make([]string, 0, len(known))
@@ -658,7 +661,7 @@ func parent(spec *Spec, tier string, seed int64, onlyLane, raceBin string) int {
 		fmt.Printf("  distinct %-35s %d\n", k, len(dist[k]))
 	}
 	if len(unlisted) > 0 {
-		rd := filepath.Join(Root, "replays", spec.ID)
+		rd := filepath.Join(OutRoot, "replays", spec.ID)
 		_ = os.MkdirAll(rd, 0o755)
 		seen := map[string]int{}
 		for i := range unlisted {
